@@ -125,7 +125,8 @@ class Engine(EngineBase):
             # one value per path component: a '_'-joined layout would be ambiguous for \w+ fields
             path = "/".join(f"{k}/{{{k}}}" for k in keys)
             target = rng.choice(["dir", "dir", "dir", ".zip", ".tar", ".tar.gz"])
-        return {"knobs": knobs, "universe": uni, "jobs": jobs, "path": path, "target": target,
+        move = target == "dir" and rng.random() < 0.15
+        return {"knobs": knobs, "universe": uni, "jobs": jobs, "path": path, "target": target, "move": move,
                 "schema": schema, "conflict_job": rng.randrange(0, 12) if rng.random() < 0.35 else None,
                 "foreign": rng.random() < 0.5}
 
@@ -302,12 +303,20 @@ class Run:
         exp_paths = self.expected_paths(project)
         conflict = self.paths_conflict(exp_paths) if exp_paths else None
         # ---- export ------------------------------------------------------------------------
-        mon, bad = self.monitor([tname, "tmp"])
+        move = bool(sc.get("move"))
+        src_raw0 = raw_project(src_path)
+        # when moving, the source jobs' directories are (only) renamed away
+        mon, bad = self.monitor([tname, "tmp"] + (["src/workspace"] if move else []))
         world.monitors.append(mon)
         log0 = len(world.log)
         try:
             project = signac.Project(src_path)
-            project.export_to(target, path=path_arg)
+            if move:
+                import shutil
+                project.export_to(target, path=path_arg, copytree=shutil.move)
+                self.probe("export_by_moving")
+            else:
+                project.export_to(target, path=path_arg)
             exc = None
         except Exception as e:  # noqa: BLE001 - outcome classified below
             exc = e
@@ -320,8 +329,13 @@ class Run:
         self.res["outcome"] = f"export: {got or 'ok'}"
         if bad:
             self.v("C16:export:wrote-outside-target", f"export_to mutated {bad[:4]} (target {tname})")
-        if snapshot(src_path, mtimes=True) != snap_src:
+        if not move and snapshot(src_path, mtimes=True) != snap_src:
             self.v("C16:export:source-changed", "export_to changed the source project")
+        if move and (exc is not None or conflict):
+            # a refused export must not have moved anything either
+            if raw_project(src_path) != src_raw0:
+                self.v("C16:export:refused-move-changed-source",
+                       f"export_to(copytree=shutil.move) raised {got} but source jobs are gone or changed")
         content = self.target_content(target)
         if conflict and len(ids) > 0:
             self.probe("conflicting_paths_" + conflict)
@@ -382,7 +396,10 @@ class Run:
             self.v("C16:import:wrote-outside-job-directories",
                    f"import_from mutated {bad[:4]}; imported job directories are {[i[:8] for i in ids]}",
                    "C16:import:wrote-outside-job-directories:" + sc["target"])
-        src_raw = raw_project(src_path)
+        src_raw = src_raw0 if move else raw_project(src_path)
+        if move and raw_project(src_path):
+            self.v("C16:export:move-left-jobs-behind", f"after a moving export the source still holds "
+                   f"{sorted(x[:8] for x in raw_project(src_path))}")
         dst_raw = raw_project(dst_path)
         if iexc is not None:
             if dst_raw or self.stray(dst_path, ids):
@@ -396,7 +413,7 @@ class Run:
         if stray:
             self.v("C16:import:entries-outside-job-directories", f"after import: {stray[:5]}",
                    "C16:import:entries-outside-job-directories:" + sc["target"])
-        if snapshot(src_path, mtimes=True) != snap_src:
+        if not move and snapshot(src_path, mtimes=True) != snap_src:
             self.v("C16:import:source-changed", "import changed the exported source project")
         # ---- import onto an existing id ---------------------------------------------------------
         if sc.get("conflict_job") is not None and ids:
